@@ -38,9 +38,12 @@
 //     with HOME, EGO_PATH, TMPDIR and the working directory in a scratch
 //     directory, and the generator's dictionary contains no os./exec./rest./io.
 //     names; the corpus sample excludes files using such packages.
-//   - Timeouts (5 s per case unless the case says otherwise), the worker's RSS
-//     watchdog and Go's own "out of memory" are resource bounds: inconclusive,
-//     never a violation.
+//   - The time bound (5 s per case unless the case carries its own) is a bound
+//     on work: 5 s of CPU time of the worker process, or 5 s during which the
+//     worker uses no CPU at all (sleeping, deadlocked), with a wall-clock cap of
+//     60 s; it does not depend on how loaded the machine is (workerproc.limiter).
+//     The time bound, the worker's RSS watchdog (3 GiB) and Go's own "out of
+//     memory" are resource bounds: inconclusive, never a violation.
 package c07
 
 import (
@@ -739,7 +742,6 @@ type wireCase struct {
 
 var baselineGoroutines int
 
-
 func init() {
 	workerproc.OnWorkerStart = func() {
 		egorun.Init()
@@ -1085,7 +1087,7 @@ func TestC07(t *testing.T) {
 			"cases run in a worker process; a crash seen in-process for run/pipe/test is reported only when the real ego binary also dies with a Go crash report on the same text",
 			"for the server entry the worker calling admin.RunCodeHandler is the host; a panic of the handler goroutine is recovered by router.ServeHTTP (HTTP 500) and is not a violation",
 			"all runs are sandboxed (Context.Sandboxed / --sandbox true) in a scratch HOME, EGO_PATH, TMPDIR and working directory",
-			"timeout (5 s unless the case carries its own), the 3 GiB RSS watchdog and Go's out-of-memory abort are resource bounds: inconclusive",
+			"the time bound (5 s of worker CPU time or of idleness, 60 s wall cap, unless the case carries its own), the 3 GiB RSS watchdog and Go's out-of-memory abort are resource bounds: inconclusive",
 			"the console's `help` command and a terminal-attached REPL are not covered in-process",
 		},
 		Gen:       gen,
